@@ -1,5 +1,6 @@
 import QuantemModel.Lemmas.Radon
 import QuantemModel.Lemmas.RadonLinear
+import QuantemModel.Lemmas.RadonPad
 /-!
 C07 — the torch Radon transform / filtered back-projection (Model/Radon.lean: `radonTorch*`,
 `fourierFilterTorch`, `iradonTorch`) is the same real function as the scikit-image reference
@@ -115,6 +116,32 @@ theorem interp_legacy_counterexample :
     interpTorchLegacy 2 (fun i => if i = 1 then (1 : ℝ) else 0) 2 = 2 ∧
     interpTorch 2 (fun i => if i = 1 then (1 : ℝ) else 0) 2 = 0 :=
   interp_legacy_counter
+
+/-! ## 3b. Padded FFT size, zero padding, shapes -/
+
+/-- **padded_size_spec**: `paddedSize N` (`max(64, 2**ceil(log2(2N)))`) is a power of two, at
+least 64, at least `2N` (so the `P - N` appended zeros are a genuine padding of at least the
+row length), and the smallest such (it is 64 or its half is below `2N`). -/
+theorem padded_size_spec (N : Nat) :
+    (∃ k, paddedSize N = 2 ^ k) ∧ 64 ≤ paddedSize N ∧ 2 * N ≤ paddedSize N ∧
+      (paddedSize N = 64 ∨ paddedSize N < 4 * N) :=
+  ⟨paddedSize_pow2 N, paddedSize_ge N, paddedSize_ge_two_mul N, paddedSize_minimal N⟩
+
+example : paddedSize 33 = 128 ∧ paddedSize 47 = 128 ∧ paddedSize 5 = 64 := by decide
+
+/-- the Fourier filter has exactly the padded size, and filtering a detector row of length `N`
+with a filter of length `P ≥ N` returns a row of length `N` (`[:N]` after the inverse FFT). -/
+theorem filter_lengths (name : FilterName) (P N : Nat) (row : List ℝ) (hr : row.length = N) (hP : N ≤ P) :
+    (fourierFilterTorch name P : List ℝ).length = P ∧
+    (filterRow (fourierFilterTorch name P) P N row).length = N :=
+  ⟨fourierFilterTorch_length name P, filterRow_length_eq _ P N row hr (fourierFilterTorch_length name P) hP⟩
+
+/-- **iradon_output_shape**: the reconstruction is `out × out` with the default output size
+(`N` in circle mode, `floor(sqrt(N²/2))` otherwise). -/
+theorem iradon_output_shape (sino : List (List ℝ)) (thetas : Option (List ℝ)) (name : FilterName) (circle : Bool) :
+    (iradonTorch sino thetas name circle).length = outputSize (R := ℝ) (sino.headD []).length circle ∧
+    ∀ row ∈ iradonTorch sino thetas name circle, row.length = outputSize (R := ℝ) (sino.headD []).length circle :=
+  iradonTorch_shape sino thetas name circle
 
 /-! ## 4. Linearity, batching, the 0° projection -/
 
